@@ -70,7 +70,7 @@ def generate(rng, index, tier):
         r = rng.random()
         u = rng.choice(users)['name']
         if r < 0.2:
-            ev = {'do': 'slots', 'value': rng.randint(0, 4)}
+            ev = {'do': 'slots', 'value': rng.randint(0, 4), 'how': rng.choice(['field', 'field', 'limits', 'transfers'])}
         elif r < 0.4:
             ev = {'do': 'status', 'user': u, 'status': rng.choice(('online', 'away', 'offline')),
                   'privileged': rng.random() < 0.2}
@@ -179,6 +179,10 @@ def corpus(tier):
             evs.append({'do': 'slots', 'value': b, 'gap': gap})
             evs += [{'do': 'request', 'user': f'u{i}', 'file': 0, 'gap': 0.0} for i in range(2, 4)]
             out.append(plan(four, a, evs))
+            if gap == 0.3:
+                # the same with the settings section replaced as a whole
+                for how in ('limits', 'transfers'):
+                    out.append(plan(four, a, [dict(e, how=how) if e['do'] == 'slots' else e for e in evs]))
     # faults: reset mid file, refusing and silent downloader, user abort, with a waiting queue behind
     for ev in ({'do': 'reset', 'user': 'u0', 'after': 2000}, {'do': 'behaviour', 'user': 'u0', 'reply': 'refuse'},
                {'do': 'behaviour', 'user': 'u0', 'reply': 'silent'}, {'do': 'abort', 'user': 'u0'}):
@@ -445,7 +449,17 @@ def _run(world: World, plan):
                     xp.peer.spawn(xp.request_file(path))
             elif do == 'slots':
                 fired['limit_change'] += 1
-                settings.transfers.limits.upload_slots = ev['value']
+                how = ev.get('how', 'field')
+                if how == 'limits':
+                    # the application replaces the settings section instead of assigning the field
+                    settings.transfers.limits = type(settings.transfers.limits)(
+                        **dict(settings.transfers.limits.model_dump(), upload_slots=ev['value']))
+                elif how == 'transfers':
+                    data = settings.transfers.model_dump()
+                    data['limits']['upload_slots'] = ev['value']
+                    settings.transfers = type(settings.transfers)(**data)
+                else:
+                    settings.transfers.limits.upload_slots = ev['value']
                 limit_hist.append((loop.time(), ev['value']))
             elif do == 'status' and ev['user'] in users:
                 fired['status_change'] += 1
